@@ -246,6 +246,17 @@ class _Inliner:
                         s2.value = R().visit(valcopy)
                         pre.value = copy.deepcopy(n)
                         return self.stmt(pre, stack, depth) + self.stmt(s2, stack, depth)
+        # `for v in helper(args): ...` with a statement helper: the iterable is hoisted into a temporary, then read as above
+        if depth > 0 and isinstance(s, ast.For) and isinstance(s.iter, ast.Call):
+            h = _inlinable(self.prog, self.f, s.iter, stack, self.keep, self.allow_loops)
+            if h is not None and _expr_helper(h) is None and _stmt_helper(h)[1] is not None and _bind(h, s.iter) is not None:
+                nm = self.fresh('tmp', h)
+                self.taken.add(nm)
+                pre = ast.copy_location(ast.Assign(targets=[ast.Name(id=nm, ctx=ast.Store())], value=copy.deepcopy(s.iter)), s)
+                ast.fix_missing_locations(pre)
+                s2 = copy.copy(s)
+                s2.iter = ast.copy_location(ast.Name(id=nm, ctx=ast.Load()), s.iter)
+                return self.stmt(pre, stack, depth) + self.stmt(s2, stack, depth)
         if call is not None and depth > 0:
             h = _inlinable(self.prog, self.f, call, stack, self.keep, self.allow_loops)
             if h is not None and _expr_helper(h) is None:
